@@ -20,6 +20,8 @@
 
 mod dns;
 mod query;
+#[cfg(libp2p_verif)]
+pub use dns::verif_c55;
 
 use std::{
     collections::VecDeque,
